@@ -122,4 +122,18 @@ PROPS = {
         "text": "After every restart and after every later operation the full logical dump (documents incl. deleted, commits, heads, index-backed reads, collection/index/schema descriptions with their identifiers, introspected types) of X must equal Y's, and every later operation must return the same result on both.",
         "note": "Peer configuration (replicators, P2P collections) and ACP state are not yet part of the compared history. An operation whose several commits are cut in the middle by the crash ends the run without verdict (that is C05's question).",
     },
+    "C18": {
+        "engine": "E3", "level": "fault_enumeration", "design_ref": "DESIGN.md §5 C18",
+        "technique": "deterministic simulation with fault injection: BasicImport with every storage site failing once and with the export file torn at structural boundaries and arbitrary offsets; round-trip fidelity asserted on every successful import; restart after import",
+        "rule": ("generated data sets (1-5 users with edge-case values of every supported kind, 0-4 books related to users, 0-3 nodes of a self-referencing collection chained to each other; pretty/compact; all collections or a subset). "
+                 "Per data set: fault-free import on a forked twin gives the storage sites; each distinct site fails once (quick: at most 60, seeded subset); the file is cut at 12 (thorough 60) seeded positions. "
+                 "distinct_nontrivial = distinct (site kind, key class) pairs in which the fault fired, plus the torn-file case; fidelity part is input sampling"),
+        "real_vs_stub": "real: BasicExport/BasicImport, document creation, relations, badger in-memory under SimStore, the real file system for the export file (scratch directory under /verif/work); stub: storage faults at the corekv seam, torn file = truncated copy, restart = log replay",
+        "assumptions": ASSUME_COMMON,
+        "probes": ["imports_checked_for_fidelity", "torn_files", "fault_read_error", "fault_write_error", "fault_disk_full", "fault_iterator_error", "fault_commit_error", "fault_commit_conflict"],
+        "quick": {"count": 3, "budget_s": 70, "workers": 16},
+        "thorough": {"count": 100000, "budget_s": 1500, "workers": 16},
+        "text": "Atomicity and crash clauses are decided by fault enumeration (per import: every storage site, complete in the thorough tier; torn files at sampled positions): a failed import leaves the target exactly as before, a reported success equals the complete import. Fidelity (values of every kind, relations under the recorded id mapping, re-export equivalence, survival of a restart) is asserted on every successful import over sampled data sets.",
+        "note": "exhaustive false: complete per import only in the thorough tier, sampled over data sets. JSON-kind numbers are float64 in DefraDB on both sides, so the round trip is compared at that precision.",
+    },
 }
